@@ -126,14 +126,16 @@ def run_spec(case, ctx: Ctx, build) -> None:
     ctx.nt(xs.is_general(case["place"]))
     ctx.label("general" if xs.is_general(case["place"]) else "aligned", "chops:" + case["chops"]["mode"])
     ctx.label("moved-after-construction" if post is not None else "as-constructed")
+    ctx.label(f"far-ratio={xs.far_ratio(case):.0e}" if xs.far_ratio(case) else "near-origin")
     ctx.label("minJ<0.03" if worst < 0.03 else "minJ<0.1" if worst < 0.1 else "minJ>=0.1")
     for lb in spec.extra.get("labels", []):
         ctx.label(lb)
 
 
 def with_common(strategy):
-    return st.tuples(strategy, xs.placements(), xs.chop_sets(), xs.post_transforms()).map(
-        lambda t: {**t[0], "place": t[1], "chops": t[2], "post": t[3]}
+    return st.tuples(strategy, xs.placements(), xs.chop_sets(), xs.post_transforms(), xs.far_offsets(),
+                     xs.far_offsets()).map(
+        lambda t: xs.settle_far({**t[0], "place": t[1], "chops": t[2], "post": t[3]}, t[4], t[5])
     )
 
 
@@ -623,14 +625,15 @@ def check_chain(case, ctx: Ctx) -> None:
     general = xs.is_general(case["place"])
     ctx.nt(general and len(shapes) >= 2)
     ctx.label(f"shapes={len(shapes)}", "general" if general else "aligned",
-              "moved-after-construction" if post is not None else "as-constructed")
+              "moved-after-construction" if post is not None else "as-constructed",
+              f"far-ratio={xs.far_ratio(case):.0e}" if xs.far_ratio(case) else "near-origin")
     for s in case["steps"]:
         ctx.label("step:" + s["op"] + ("@start" if s["where"] == "start" else ""))
 
 
 def chain_strategy(start_kinds, witness=False):
-    return st.tuples(chain_cases(start_kinds, witness), xs.placements(), xs.post_transforms()).map(
-        lambda t: {**t[0], "place": t[1], "post": t[2]})
+    return st.tuples(chain_cases(start_kinds, witness), xs.placements(), xs.post_transforms(), xs.far_offsets(),
+                     xs.far_offsets()).map(lambda t: xs.settle_far({**t[0], "place": t[1], "post": t[2]}, t[3], t[4]))
 
 
 # --------------------------------------------------------------------------------------------------
